@@ -768,6 +768,11 @@ func runC09(c *Ctx) {
 	r.Floor("use-after-release", nrel, 50, "release sites")
 	c09ResultOwned(c, p)
 	c09CapturedNode(c, p)
+	r.Rule("guard-field-match", "in the release functions of pkg/sql/ast (Put…, Release…), the child released under `if x.A != nil` is x.A: a branch that tests one field and queues or releases another, untested, one releases that node twice and leaks the tested one")
+	ng := guardFieldMatch(c, p, "guard-field-match", []string{"pkg/sql/ast"}, func(f *ssa.Function) bool {
+		return strings.HasPrefix(outer(f).Name(), "Put") || strings.HasPrefix(outer(f).Name(), "Release")
+	})
+	r.OK("guard-field-match", "scan", "-", sprintf("%d presence-guarded regions that use sibling fields examined", ng))
 	if c.Controls {
 		if cp := c.Control("c09"); cp != nil {
 			sub := *c
